@@ -34,6 +34,7 @@ from _griffe.docstrings.models import (
     DocstringYield,
 )
 from _griffe.docstrings.utils import docstring_warning, parse_docstring_annotation
+from _griffe.exceptions import AliasResolutionError, CyclicAliasError
 from _griffe.enumerations import DocstringSectionKind, LogLevel
 
 if TYPE_CHECKING:
@@ -208,19 +209,20 @@ def _read_parameters(
             # Try to use the annotation from the signature.
             try:
                 annotation = docstring.parent.parameters[name].annotation  # type: ignore[union-attr]
-            except (AttributeError, KeyError):
+            except (AttributeError, KeyError, AliasResolutionError, CyclicAliasError):
                 annotation = None
 
         try:
             default = docstring.parent.parameters[name].default  # type: ignore[union-attr]
-        except (AttributeError, KeyError):
+        except (AttributeError, KeyError, AliasResolutionError, CyclicAliasError):
             default = None
 
         if annotation is None:
             docstring_warning(docstring, line_number, f"No type or annotation for parameter '{name}'")
 
         if warn_unknown_params:
-            with suppress(AttributeError):  # For Parameters sections in objects without parameters.
+            # For Parameters sections in objects without parameters.
+            with suppress(AttributeError, AliasResolutionError, CyclicAliasError):
                 params = docstring.parent.parameters  # type: ignore[union-attr]
                 if name not in params:
                     message = f"Parameter '{name}' does not appear in the function signature"
@@ -284,7 +286,7 @@ def _read_attributes_section(
         else:
             name = name_with_type
             annotation = None
-            with suppress(AttributeError, KeyError, TypeError, ValueError):
+            with suppress(AttributeError, KeyError, TypeError, ValueError, AliasResolutionError, CyclicAliasError):
                 # Use subscript syntax to fetch annotation from inherited members too.
                 annotation = docstring.parent[name].annotation  # type: ignore[index]
 
